@@ -318,7 +318,9 @@ func blockOnListChangeWorker(
 		ctx.l.Tracef("waiting for %s to get a list item until %s", keyNameStr(), end.Format(time.StampMilli))
 	}
 
+	verifPoint("before-register", ctx.cs.id, 0)
 	ws := blockFn()
+	verifPoint("after-register", ctx.cs.id, ws.id)
 	defer ctx.dsc.ds.leaveListBlock(ws)
 
 	// with notification registered, try operation again immediately
@@ -335,11 +337,14 @@ func blockOnListChangeWorker(
 			waitTimer := time.NewTimer(timeout)
 			defer waitTimer.Stop()
 
+			verifPoint("before-capture", ctx.cs.id, 0)
 			unblockCh := ctx.cs.capture()
 			defer ctx.cs.releaseCapture()
 
+			verifPoint("before-wait", ctx.cs.id, 0)
 			select {
 			case reason := <-unblockCh:
+				verifPoint("woke-unblock", ctx.cs.id, 0)
 				// abort this command - connectivity lost, or explicitly unblocked via another client
 				ctx.l.Tracef("client connectivity event aborts wait for list %s", keyNameStr())
 				if reason.isError {
@@ -347,10 +352,12 @@ func blockOnListChangeWorker(
 				}
 				return true
 			case <-waitTimer.C:
+				verifPoint("woke-timer", ctx.cs.id, 0)
 				// the block timed out, fail this command
 				ctx.l.Tracef("wait timer for %s has expired", keyNameStr())
 				return true
 			case <-ws.ready:
+				verifPoint("woke-ready", ctx.cs.id, 0)
 				// acquire completed
 				return false
 			}
@@ -365,6 +372,7 @@ func blockOnListChangeWorker(
 			return
 		}
 		// a different client obtained the list element before this client could, so try again
+		verifPoint("retry-failed", ctx.cs.id, 0)
 	}
 }
 
